@@ -7,7 +7,30 @@ ALL = ["C%02d" % i for i in range(1, 21)]
 SEQ_NOTE = ("single session; model checking at fan-out 3 / 5-9 keys, conformance at the code's fan-out 15; trusted: canonical dump "
             "through node accessors, driver-side value ids; a model failure or tool error is reported as undecided (exit 2), never as a violation")
 SEQ_TECH = "TLA+ model checking (TLC) of YkTree + TLC trace validation of real API executions (TraceTree)"
+CONC_NOTE = ("sequentially consistent executions only (one controlled thread at a time, preemption at every hooked atomic access); bounded exploration: seeded random / "
+             "PCT schedules and every single preemption of 2-thread programs over 7 tree-shape families, 1-2 operations per thread; a deadlock/livelock or tool error "
+             "is 'undecided' (exit 2) except in C09")
+CONC_TECH = "deterministic-scheduler exploration of the real code + TLC linearization search / run facts (TraceLin)"
 CLAIMED = {
+    "C01": dict(cat="model_checking", ref="DESIGN.md 3.6, 3.8, 6 (C01)",
+                text="Real get/put/unique-put/remove calls of 2-3 threads are executed under a deterministic scheduler that preempts at every hooked atomic access "
+                     "(version, permutation, slot, link, root words) on seven tree shapes (single border, full border about to split, interior levels, next layers, "
+                     "nodes that become empty); for every run TLC searches, key by key, a linearization of the recorded call/return history that ends in the quiescent "
+                     "content; null or torn values are unplaceable. Thousands of distinct schedules per run of the check incl. every single preemption.",
+                note=CONC_NOTE, tech=CONC_TECH),
+    "C04": dict(cat="model_checking", ref="DESIGN.md 3.6, 6 (C04)",
+                text="As C01 with scans (forward, size-limited, right-to-left) in the thread programs: every key of the interval a scan covered contributes one read "
+                     "(returned value or ABSENT) that TLC must place in the per-key linearization (returned pairs were current, stable keys are never lost, absent keys "
+                     "were absent), plus shape facts (strictly ascending, inside the interval, valid non-null values, limit respected).", note=CONC_NOTE, tech=CONC_TECH),
+    "C06": dict(cat="model_checking", ref="DESIGN.md 3.6, 6 (C06)",
+                text="As C04 with the scan's node_version_vec: after every run the recorded (version, node) pairs are probed at quiescence; TLC requires that a key the scan "
+                     "covered and reported absent, absent initially, never removed and put by a call that had not returned when the scan started, leaves a stale pair.",
+                note=CONC_NOTE, tech=CONC_TECH),
+    "C09": dict(cat="model_checking", ref="DESIGN.md 3.6, 6 (C09)",
+                text="Every scheduler-driven run of the concurrent drivers must complete under a fair continuation: the scheduler parks threads that spin on a word until "
+                     "somebody writes and reports 'every unfinished thread parked' (deadlock) or an exhausted step budget (livelock); at quiescence TLC checks on the dump "
+                     "that no node is locked or dirty and the structure is well formed. The version-word protocol itself (mutual exclusion, termination under weak "
+                     "fairness) is model checked in C17.", note=CONC_NOTE, tech=CONC_TECH),
     "C02": dict(cat="model_checking", ref="DESIGN.md 3.4-3.5, 6 (C02)",
                 text="TLC checks refinement of the tree algorithms (YkTree: splits, layers, node removal, collapse, root replacement) to an ordered map for "
                      "every Put/Remove order over small key universes; every status/value of seeded put/unique-put/get/remove histories on the real code "
@@ -26,8 +49,9 @@ CLAIMED = {
                      "locked node, chain listing = descent lookups = abstract map. Concurrent quiescence is covered by the concurrent checks.", note=SEQ_NOTE, tech=SEQ_TECH),
     "C10": dict(cat="model_checking", ref="DESIGN.md 6 (C10)",
                 text="First sentence (sequential cursor): every real iscan_open/next sequence (both directions, all endpoint kinds, early stop) is judged by TLC "
-                     "against the ordered abstract map incl. full_key and argument rejection. Second sentence (concurrent) is served by the concurrent cursor check "
-                     "when built; not claimed by this revision.", note=SEQ_NOTE, tech="TLC trace validation of real cursor executions (TraceTree ON={C10})"),
+                     "against the ordered abstract map incl. full_key and argument rejection. Second sentence: cursor steps of one thread interleaved with writers "
+                     "of another under the deterministic scheduler (trees with next layers included): monotone in-interval keys, values placed in the per-key "
+                     "linearization, stable keys not skipped, the callback's version set judged as in C06, faults reported; early_abort is not exercised yet.", note=SEQ_NOTE, tech="TLC trace validation of real cursor executions (TraceTree ON={C10})"),
     "C12": dict(cat="model_checking", ref="DESIGN.md 6 (C12)",
                 text="TLC checks the report rule on every inserting/updating Put of small models (LastOK) and judges every real put (inserted_node_info and legacy "
                      "overload) against the set of border version words that actually changed (driver snapshots all borders before/after) and the split sibling.",
